@@ -13,6 +13,7 @@ ap = argparse.ArgumentParser()
 ap.add_argument("prop"); ap.add_argument("mn")
 ap.add_argument("--dest"); ap.add_argument("--cmd"); ap.add_argument("--tier", default="quick")
 ap.add_argument("--skip-confirm", action="store_true"); ap.add_argument("--confirm-only", action="store_true"); ap.add_argument("--skip-suite", action="store_true")
+ap.add_argument("--as", dest="alias", default=None, help="store under /verif/seeded/<PROP>-<alias> (the sub-agent calls it m1/m2)")
 ap.add_argument("--checks", default=None, help="comma list of property checks to run (default: the property itself)")
 a = ap.parse_args()
 WT = "/tmp/mut-" + a.prop
@@ -30,8 +31,8 @@ head = "".join(open(demos[0]).readlines()[:6]) if demos else ""
 dest = a.dest or (re.search(r"[Cc]opy (?:this file )?(?:to|into) `?([\w./-]+)", head) or [None, None])[1]
 cmd = a.cmd or (re.search(r"(go test [^\n`]*)", head) or [None, None])[1]
 print("dest:", dest, "| cmd:", cmd)
-meta = {"property": a.prop, "change": a.mn}
-sd = "/verif/seeded/%s-%s" % (a.prop, a.mn)
+meta = {"property": a.prop, "change": a.alias or a.mn}
+sd = "/verif/seeded/%s-%s" % (a.prop, a.alias or a.mn)
 if not a.skip_confirm:
     assert dest and cmd
     sh("git checkout -- . && git clean -fdq -e out", WT, True)
